@@ -876,7 +876,7 @@ def rand_c09(seed, tier, cases=None):
             if b and rng.random() < 0.7:
                 b[0] = rng.choice([0x1C, 0x7C, 0x18, 0x78, 0x62, 0x60, 0x64, 0x90, 0x80, 0xFF, 0xAA, 0x10, 0x50, 0x30, 0x00, 0x65, 0x26])
             items.append(b)
-        out.append(dict(fam="C09", kind=kind, src="bytes", items=items, probes=True, scribble=True, **{"class": kind + "_long_run"}))
+        out.append(dict(fam="C09", kind=kind, src="bytes", items=items, probes=True, scribble=True, parallel=True, **{"class": kind + "_long_run"}))
         if kind in ("vp8", "vp9", "h264", "h264_avc", "h265", "h265_donl", "av1"):
             out.append(dict(fam="C09", kind=kind, src="bytes", items=items, probes=True, scribble=True, zeroalloc=True, **{"class": kind + "_long_run_zero_allocation"}))
     return out
